@@ -41,6 +41,17 @@ func runVestMachine(t *rapid.T, on ...string) *vestMachine {
 		}
 		m.note("the governance module account holds %s and may own pools", coins)
 	}
+	if rapid.IntRange(0, 2).Draw(t, "vestingAccountAsOwner") == 0 {
+		a := m.v.NextFresh()
+		nowS := nsTime(m.v.NowNs).Unix()
+		ov := sdk.NewCoins(sdk.NewCoin(Denom, sdk.NewIntFromBigInt(pow10[21])))
+		makeCVA(m.v, a, ov, nowS-int64(rapid.IntRange(0, 1000).Draw(t, "vestingOwnerStartedAgo")), nowS+int64(rapid.IntRange(1, 40_000_000).Draw(t, "vestingOwnerEndsIn")), sdk.NewCoins(sdk.NewCoin(Denom, sdk.NewIntFromBigInt(pow10[21]))))
+		if rapid.Bool().Draw(t, "vestingOwnerStakes") {
+			m.v.Delegate(a, sdk.NewIntFromBigInt(pow10[20]).MulRaw(int64(rapid.IntRange(1, 15).Draw(t, "vestingOwnerStake"))))
+		}
+		m.vestingOwner = a
+		m.note("owner %s is a continuous vesting account: balance %s, locked %s", a, m.v.Bal(a), m.v.App.BankKeeper.LockedCoins(m.v.Ctx, a))
+	}
 	m.seedGenesisPools()
 	m.seedPools()
 	if rapid.Bool().Draw(t, "otherVestingKinds") {
@@ -63,6 +74,9 @@ func (m *vestMachine) commonClasses() (cl []string) {
 	}
 	if m.typesRemoved > 0 {
 		cl = append(cl, "vesting_type_removed_while_pools_name_it")
+	}
+	if m.vestingOwner != nil {
+		cl = append(cl, "pool_owner_that_is_a_vesting_account")
 	}
 	if m.manyPools > 0 {
 		cl = append(cl, "owner_with_35_to_300_pools")
